@@ -23,6 +23,8 @@ var c11Conds = []struct{ name, cond string }{
 	{"missing", "Z.I == 0"},
 	{"kind", "F.S > 1"},
 	{"index", "F.Arr[5] == 0"},
+	{"mapkey-paren-and", `(F.M["k"] > 1) && F.I >= 0`},
+	{"mapkey-paren-or", `(F.M["k"] > 1) || F.I2 == 7`},
 }
 
 type c11Case struct {
@@ -39,6 +41,11 @@ func c11World(i2 int64) func() *ref.World {
 		f := facts.New()
 		f.I2 = i2
 		f.Arr = []int64{1}
+		if i2 == 0 {
+			f.M = map[string]int64{"k": 5}
+		} else {
+			f.M = map[string]int64{}
+		}
 		w.Objs["F"] = f
 		return w
 	}
@@ -135,8 +142,13 @@ func C11(rep *ev.Reporter, tier string) {
 		for wi, mkw := range worlds {
 			atomic.AddInt64(&states, 1)
 			nperm := hx.NPerms(len(c.rules))
-			for ch := 0; ch < nperm; ch++ {
-				caseID := fmt.Sprintf("%s#w%d#%d", c.id, wi, ch)
+			for chx := 0; chx < nperm*(len(worlds)+1); chx++ {
+				ch := chx % nperm
+				prior := chx/nperm - 1 // -1: fresh instance; else index of the world used by an earlier call
+				if prior == wi {
+					continue
+				}
+				caseID := fmt.Sprintf("%s#w%d#%d#prior%d", c.id, wi, ch, prior)
 				if rep.ReplayFilter != "" && rep.ReplayFilter != caseID {
 					continue
 				}
@@ -149,6 +161,10 @@ func C11(rep *ev.Reporter, tier string) {
 						for _, n := range c.removed {
 							kb.RemoveRuleEntry(n)
 						}
+					}
+					if prior >= 0 {
+						// an earlier call on the same instance with another fact state
+						hx.Fetch(kb, worlds[prior](), false, ch)
 					}
 					w := mkw()
 					before := w.Dump()
@@ -237,5 +253,5 @@ func C11(rep *ev.Reporter, tier string) {
 		rep.Exhaustive = false
 		rep.Coverage["caps_hit"] = "time budget"
 	}
-	rep.Coverage["rule"] = "every rule set of 2 rules over 8 conditions (true, false, state-dependent, shared sub-expression, nil pointer, missing fact, kind mismatch, index out of range) x 6 salience pairs x removal sets (library- and instance-level) x both values of ReturnErrOnFailedRuleEvaluation, every rule set of 3 rules over 5 (thorough 8) conditions x 6 salience triples x 3 removal sets x flag (thorough: 4 rules), 2 fact states, EVERY rule-iteration order (k!); states = (program, world) pairs, transitions = FetchMatchingRules calls. Oracle: returned names == non-removed rules whose condition the reference evaluator finds true (each once), model saliences non-increasing, facts unchanged, no action probe ran, error returned iff flag set and some condition fails. Non-trivial: >=2 rules satisfied."
+	rep.Coverage["rule"] = "every rule set of 2 rules over 10 conditions (true, false, state-dependent, shared sub-expression, nil pointer, missing fact, kind mismatch, index out of range, parenthesised map lookup that errors in one world - shared between two shapes) x 6 salience pairs x removal sets (library- and instance-level) x both values of ReturnErrOnFailedRuleEvaluation, every rule set of 3 rules over 5 (thorough 8) conditions x 6 salience triples x 3 removal sets x flag (thorough: 4 rules), 2 fact states, EVERY rule-iteration order (k!), each call on a fresh instance AND on an instance that served an earlier call with the other fact state; states = (program, world) pairs, transitions = FetchMatchingRules calls. Oracle: returned names == non-removed rules whose condition the reference evaluator finds true (each once), model saliences non-increasing, facts unchanged, no action probe ran, error returned iff flag set and some condition fails. Non-trivial: >=2 rules satisfied."
 }
